@@ -409,8 +409,11 @@ class Problem:
                         break
 
                 if all_same:
-                    # All variables from one VectorVariable - already in order!
-                    self._variables = list(source_vector._variables)
+                    # All variables from one VectorVariable. A view may list them
+                    # in another order (x[::-1]), so the natural order is restored.
+                    self._variables = sorted(
+                        source_vector._variables, key=_natural_sort_key
+                    )
                     return self._variables
 
         # General case: collect from all expressions and sort
